@@ -14,6 +14,7 @@
 #include <fcppt/container/grid/fill.hpp>
 #include <fcppt/container/grid/in_range.hpp>
 #include <fcppt/container/grid/in_range_dim.hpp>
+#include <fcppt/container/grid/interpolate.hpp>
 #include <fcppt/container/grid/make_min.hpp>
 #include <fcppt/container/grid/make_pos_range.hpp>
 #include <fcppt/container/grid/make_pos_range_start_end.hpp>
@@ -610,6 +611,28 @@ struct gr
            " ge=" + bit(a >= b);
   }
 
+  // interpolate at the position fl + q/4 (exact in binary floating point) with an interpolator that only records
+  // its arguments: ip(f, a, b) = (4f + 1) * 1000003 + 7a + 13b
+  static std::string interp_line(G const &g, ivec const &fl, ivec const &q)
+  {
+    using fvec = fcppt::math::vector::static_<double, N>;
+    fvec const p{fcppt::math::vector::init<fvec>([&fl, &q](auto const i) {
+      return static_cast<double>(fl[decltype(i)::value]) + static_cast<double>(q[decltype(i)::value]) / 4.0;
+    })};
+    long const r{grid::interpolate(g, p, [](double const f, long const a, long const b) {
+      return static_cast<long>((static_cast<long>(f * 4.0) + 1) * 1000003 + 7 * a + 13 * b);
+    })};
+    return "ip=" + std::to_string(r);
+  }
+
+  static bool interp_ok(ivec const &d, ivec const &fl, ivec const &q)
+  {
+    for (std::size_t i = 0; i < N; ++i)
+      if (fl[i] < 0 || fl[i] + 1 >= d[i] || q[i] < 0 || q[i] > 3)
+        return false;
+    return true;
+  }
+
   static std::string clamp_line(ivec const &d, ivec const &p)
   {
     auto const sp = st::to_pos(p);
@@ -747,6 +770,27 @@ std::string handle_grid(std::vector<std::string> const &t)
     o << g;
     return "out=" + o.str();
   }
+  if (op == "interp")
+  {
+    ivec const fl = vh::int_list(t[3]), q = vh::int_list(t[4]);
+    if (!R::interp_ok(d, fl, q))
+      return "bad-op";
+    typename R::G const g{R::mk(d, vh::to_ll(t[2]))};
+    return R::interp_line(g, fl, q);
+  }
+  if (op == "interps")
+  {
+    for (ll x : d)
+      if (x < 2)
+        return "bad-op";
+    typename R::G const g{R::mk(d, vh::to_ll(t[2]))};
+    // all integral parts with every neighbour in range, all fractional parts in quarters
+    std::uint64_t h = vh::fnv_init;
+    tuples(konst(N, 0), plus(d, -1), [&h, &g](ivec const &fl) {
+      tuples(konst(N, 0), konst(N, 4), [&h, &g, &fl](ivec const &q) { h = vh::fnv(h, R::interp_line(g, fl, q)); });
+    });
+    return "D " + vh::hex64(h);
+  }
   if (op == "regs")
     return R::regs_line({d, vh::int_list(t[3]), vh::int_list(t[5])}, {vh::to_ll(t[2]), vh::to_ll(t[4]), vh::to_ll(t[6])}, t[7]);
   if (op == "cmp")
@@ -881,6 +925,8 @@ std::string handle(std::vector<std::string> const &t)
     else if (op == "apply" && t.size() == 5) { lists = {1, 3}; want = 5; }
     else if (op == "apply" && t.size() == 7) { lists = {1, 3, 5}; want = 7; }
     else if (op == "fill") { lists = {1}; want = 4; }
+    else if (op == "interp") { lists = {1, 3, 4}; want = 5; }
+    else if (op == "interps") { lists = {1}; want = 3; }
     else if (op == "regs") { lists = {1, 3, 5}; want = 8; }
     else if (op == "cmp") { lists = {1, 3}; want = 5; }
     else if (op == "clamp") { lists = {1}; slists = {2}; want = 3; }
